@@ -44,9 +44,11 @@ void x_vf_msg_deleted(uint8_t *m) { n_deleted++; }
 void *st_factory(void *ctx, void *from, uint8_t nochk, uint8_t permissive)
 {
   n_factory++;
-  if (m_decode_fail) { vf_throw_decode(m_decode_fail); return 0; }
-  if (m_factory_null) return 0;
-  return m_msg;
+  /* the returned pointer must stay a constant address on every path (a merged "null or message" pointer makes the vptr load of
+     msg->is_admin() symbolic and CBMC fans out over all signature-compatible functions): the value returned while an exception is
+     pending is ignored by the caller, and m_factory_null is a per-harness constant */
+  if (m_decode_fail) vf_throw_decode(m_decode_fail);
+  return m_factory_null ? (void*)0 : m_msg;
 }
 uint8_t st_get_possdup(void *mb, void *f) { if (!m_has_pd) return 0; vf_set_bool_field(f, m_pd); return 1; }
 uint8_t st_get_sendingtime(void *mb, void *f) { if (!m_has_st) return 0; vf_set_time_field(f, m_st); return 1; }
